@@ -478,20 +478,20 @@ func c08Window(tier string, seed int64, idx int, scratch string) rt.CaseResult {
 	tr := conc.NewTracer(true)
 	tr.Install()
 	defer conc.Uninstall()
-	window := []string{"commit.seq(1)<reader.begin<commit.seq(2)", "begin.seq-drawn<collector.horizon<begin.registered"}[idx%2]
+	window := []string{"commit.seq(1)<reader.begin<commit.seq(2)", "begin.seq-drawn<collector.horizon<begin.registered", "collector.horizon-chosen<reader.begin+read<overwrite<collector.walks-the-lists"}[idx%3]
 	keys := []string{"g0-k0", "g0-k1", "g0-k2"}
 	groups := map[string][]string{"g0": keys}
 	for _, k := range keys {
 		env.DB.Set(ctxBg, k, tokVal(k, 0))
 	}
 	commits := map[string][]c08Commit{}
-	r := &c08Reader{ID: idx, Level: 2 + idx/2%2}
+	r := &c08Reader{ID: idx, Level: 2 + idx/3%2}
 	var gate *conc.Gate
 	readAll := func(tx interface {
 		Get(ctx context.Context, key string) ([]byte, error)
 		GetKeys(ctx context.Context) ([]string, error)
 	}) {
-		for p := 0; p < 2; p++ {
+		for p := len(r.KeyLists); p < 2; p++ {
 			for _, k := range keys {
 				b, err := tx.Get(ctxBg, k)
 				rd := c08Read{Key: k, Pass: p, Class: string(seqrun.Class(err)), Tok: -1}
@@ -506,7 +506,61 @@ func c08Window(tier string, seed int64, idx int, scratch string) rt.CaseResult {
 			r.KeyLists = append(r.KeyLists, ks)
 		}
 	}
-	switch idx % 2 {
+	switch idx % 3 {
+	case 2:
+		// a collector pass has chosen its horizon (no transaction is open) and is held before it
+		// walks the version lists; a snapshot begins and reads; the keys are overwritten; the pass
+		// goes on: the snapshot must still read what it read before
+		done := make(chan struct{})
+		go func() {
+			defer close(done)
+			gate = tr.AddGate(&conc.Gate{WaitPoint: "cleaner.deleteold.horizon", WaitG: conc.Goid(), SigPoint: "verif.never", Timeout: 3 * time.Second})
+			env.Collect()
+		}()
+		for gate == nil {
+			time.Sleep(100 * time.Microsecond)
+		}
+		gate.WaitReached(time.Second)
+		r.G = conc.Goid()
+		r.BeginCall = tr.Now()
+		tx, _ := env.DB.Begin(ctxBg, verif.IsoLevel(r.Level))
+		r.BeginRet = tr.Now()
+		// first pass of reads only
+		for _, k := range keys {
+			b, err := tx.Get(ctxBg, k)
+			rd := c08Read{Key: k, Pass: 0, Class: string(seqrun.Class(err)), Tok: -1}
+			if err == nil {
+				if n, ok := parseTok(k, b); ok {
+					rd.Tok = n
+				}
+			}
+			r.Reads = append(r.Reads, rd)
+		}
+		ks, _ := tx.GetKeys(ctxBg)
+		r.KeyLists = append(r.KeyLists, ks)
+		cm := c08Commit{N: 1, Call: tr.Now()}
+		if idx%2 == 0 {
+			w, _ := env.DB.Begin(ctxBg, verif.IsoLevel(1))
+			for _, k := range keys {
+				w.Set(ctxBg, k, tokVal(k, 1))
+			}
+			if w.Commit(ctxBg) == nil {
+				cm.Ret = tr.Now()
+			}
+			commits["g0"] = []c08Commit{cm}
+		} else {
+			// autocommit overwrites: the keys are no longer one group
+			for _, k := range keys {
+				env.DB.Set(ctxBg, k, tokVal(k, 1))
+			}
+			groups = map[string][]string{}
+		}
+		gate.Release()
+		<-done
+		env.Drain()
+		readAll(tx)
+		r.End = tr.Now()
+		tx.Rollback(ctxBg)
 	case 0:
 		// committer parks after its first sequence assignment until the reader has registered
 		done := make(chan struct{})
